@@ -73,6 +73,7 @@ Definition bit (b : bool) (n : N) : N := if b then n else 0%N.
 
 (* ---------------------------------------------------------------- reply cases (C04, C05) *)
 Record rcase := {
+  rc_object_only : bool;         (* receive_reply of the tree under test refuses non-object frames *)
   rc_e : shape;                  (* the caller's error type *)
   rc_p : shape;                  (* the expected parameter type *)
   rc_frame : jval;
@@ -94,15 +95,17 @@ Definition model_drep (c : rcase) := option_map reply_view (dec_reply (rc_p c) (
 Definition re_enc (s : shape) (d : option rval) : option jval :=
   match d with Some r => encoder s r | None => None end.
 
-(*  1  receive_reply differs from the model (classify)
+(* 64  SPEC: the frame is not a JSON object and receive_reply did not report a decode error
+    1  receive_reply differs from the model (receive_reply_model)
     2  SPEC: the frame is an object with an `error` member and receive_reply reported success
     4  SPEC: the object has no duplicate member names and receive_reply differs from spec_classify
     8  call_method differs from receive_reply
    16  a directly decoded alternative differs from the model
    32  a re-encoding differs from the model's encoder *)
 Definition check_reply (c : rcase) : N :=
-  let mo := classify (rc_e c) (rc_p c) (rc_frame c) in
+  let mo := receive_reply_model (rc_object_only c) (rc_e c) (rc_p c) (rc_frame c) in
   (bit (negb (outcome_eqb mo (rc_recv c))) 1 +
+   bit (negb (is_object (rc_frame c)) && negb (outcome_eqb DecodeError (rc_recv c))) 64 +
    match rc_frame c with
    | JObj ms =>
        bit (has_memberb "error" ms && is_success (rc_recv c)) 2 +
@@ -117,8 +120,8 @@ Definition check_reply (c : rcase) : N :=
               && ojval_eqb (re_enc (reply_shape (rc_p c)) (dec_reply (rc_p c) (rc_frame c))) (rc_erep c))) 32)%N.
 
 Definition show_reply (c : rcase) :=
-  (classify (rc_e c) (rc_p c) (rc_frame c),
-   match rc_frame c with JObj ms => Some (spec_classify (rc_e c) (rc_p c) ms) | _ => None end,
+  (receive_reply_model (rc_object_only c) (rc_e c) (rc_p c) (rc_frame c),
+   match rc_frame c with JObj ms => Some (spec_classify (rc_e c) (rc_p c) ms) | _ => Some DecodeError end,
    (model_dvs c, model_derr c, model_drep c),
    (re_enc vs_error_shape (model_dvs c), re_enc (rc_e c) (model_derr c),
     re_enc (reply_shape (rc_p c)) (dec_reply (rc_p c) (rc_frame c)))).
@@ -153,6 +156,7 @@ Definition show_call (c : ccase) :=
 
 (* ---------------------------------------------------------------- proxy cases *)
 Record pcase := {
+  pc_object_only : bool;
   pc_unit : bool;                (* the method has no output *)
   pc_e : shape;
   pc_p : shape;
@@ -174,11 +178,13 @@ Definition spec_proxy (c : pcase) (ms : members) : pout :=
 
 Definition is_pok (p : pout) : bool := match p with POk _ | PMissing => true | _ => false end.
 
-(*  1  the proxy method's result differs from the model (proxy_out)
+(* 64  SPEC: the frame is not a JSON object and the proxy method did not fail with a decode error
+    1  the proxy method's result differs from the model (proxy_model)
     2  SPEC: object with an `error` member reported as success (or as success without parameters)
     4  SPEC: no duplicate member names and the result differs from spec_proxy *)
 Definition check_proxy (c : pcase) : N :=
-  (bit (negb (pout_eqb (proxy_out (pc_unit c) (pc_e c) (pc_p c) (pc_frame c)) (pc_res c))) 1 +
+  (bit (negb (pout_eqb (proxy_model (pc_object_only c) (pc_unit c) (pc_e c) (pc_p c) (pc_frame c)) (pc_res c))) 1 +
+   bit (negb (is_object (pc_frame c)) && negb (pout_eqb PDecode (pc_res c))) 64 +
    match pc_frame c with
    | JObj ms =>
        bit (has_memberb "error" ms && is_pok (pc_res c)) 2 +
@@ -187,5 +193,5 @@ Definition check_proxy (c : pcase) : N :=
    end)%N.
 
 Definition show_proxy (c : pcase) :=
-  (proxy_out (pc_unit c) (pc_e c) (pc_p c) (pc_frame c),
-   match pc_frame c with JObj ms => Some (spec_proxy c ms) | _ => None end).
+  (proxy_model (pc_object_only c) (pc_unit c) (pc_e c) (pc_p c) (pc_frame c),
+   match pc_frame c with JObj ms => Some (spec_proxy c ms) | _ => Some PDecode end).
